@@ -483,9 +483,10 @@ Proof.
       destruct (t_apptok t) as [|e'|g' p']; try discriminate; [reflexivity|].
     cbn in A2. apply andb_true_iff in A2 as [G P]. apply gp_eqb_eq in G. apply N.eqb_eq in P. subst g' p'.
     destruct (B g p eq_refl) as [X Y]. cbn. rewrite X, Y. reflexivity.
-  - destruct (t_auth t) as [c|]; [|reflexivity]. apply N.eqb_eq in A3. subst c.
+  - destruct (t_auth t) as [c|]; [|reflexivity]. apply N.eqb_eq in A3. subst c. unfold auth_model.
+    destruct (t_empty t); [reflexivity|].
     destruct (validate_app_g ac dc sc (t_key t) (t_aud t) (t_app t) (t_now t) (t_view t)) as [|e|g p] eqn:E; [contradiction|reflexivity|].
-    cbn. destruct (B g p eq_refl) as [X _]. exact X.
+    cbn. destruct (B g p eq_refl) as [X _]. rewrite X. reflexivity.
 Qed.
 
 (* the secrets side: where the code agrees with the ideal-MAC model the oracle on keyed hashes holds *)
@@ -519,6 +520,6 @@ Theorem working_key_iff copies : (forall t, working_key_g copies t = t_key t) <-
 Proof.
   split.
   - intros H. destruct copies; [reflexivity|].
-    specialize (H (mkTrace [1]%N [0]%N 0 [] [] VNoSplit ORaw OPanic OPanic None)). discriminate.
+    specialize (H (mkTrace [1]%N [0]%N false 0 [] [] VNoSplit ORaw OPanic OPanic None)). discriminate.
   - intros ->. reflexivity.
 Qed.
